@@ -18,12 +18,33 @@ RULE = ('case = generated class with 1-3 cached methods (0-3 positional-or-keywo
         'every execution returns a unique value. non-trivial = sequence in which some binding was called with >=2 different spellings; '
         'distinct = hash(signatures, call sequence)')
 REQUIRED = ['calls', 'respelled_hits', 'different_binding_misses', 'ignored_arg_hits', 'force_calls', 'only_cache_calls',
-            'store_value_calls', 'kwonly_default_spellings', 'own_cache_entry_counts', 'json_cache_classes', 'version_isolation_checks']
+            'store_value_calls', 'kwonly_default_spellings', 'own_cache_entry_counts', 'json_cache_classes', 'version_isolation_checks',
+            'falsy_store_values', 'respelled_hits_with_reordered_mappings']
 ASSUMPTIONS = ['positional-only parameters, *args/**kwargs, custom key functions and methods sharing one external cache object are out of scope',
                'argument values are drawn from a pool that is pairwise distinct under both Python equality and JSON text']
 BUDGET = {'quick': 40, 'thorough': 900}
 
-POOL = [2, 3, -1, 'a', 'b', '', None, [2, 3], [3, 2], {'k': 2}, {'k': 3}, {'j': 2}, 'None', '2', 2.5, [], {}, 'é', [[2]], {'k': [2]}]
+POOL = [2, 3, -1, 'a', 'b', '', None, [2, 3], [3, 2], {'k': 2}, {'k': 3}, {'j': 2}, 'None', '2', 2.5, [], {}, 'é', [[2]], {'k': [2]},
+        {'k': 2, 'j': 3}, {'k': 3, 'j': 2}, [{'b': 1, 'a': [2]}, 2], {'x': {'q': 1, 'p': 2, 'r': None}, 'w': [3]}]
+
+
+def reorder(rng, v):
+    """an equal value whose mappings (at any depth) were typed in another item order"""
+    if isinstance(v, dict):
+        items = [(k, reorder(rng, x)) for k, x in v.items()]
+        rng.shuffle(items)
+        return dict(items)
+    if isinstance(v, list):
+        return [reorder(rng, x) for x in v]
+    return v
+
+
+def has_multikey_dict(v):
+    if isinstance(v, dict):
+        return len(v) >= 2 or any(has_multikey_dict(x) for x in v.values())
+    if isinstance(v, list):
+        return any(has_multikey_dict(x) for x in v)
+    return False
 
 
 def gen_method(rng, idx):
@@ -90,6 +111,7 @@ def canonical_binding(m, args, kwargs):
 def spell(rng, m, binding):
     pos = [p for p in m['params'] if p['kind'] == 'pos']
     k = rng.randint(0, len(pos))
+    binding = {n: reorder(rng, v) for n, v in binding.items()}
     args = [binding[p['name']] for p in pos[:k]]
     rest = pos[k:] + [p for p in m['params'] if p['kind'] == 'kw']
     rng.shuffle(rest)
@@ -188,6 +210,10 @@ def run_class(rng, res: CaseResult, cache_kind):
             elif ctrl < 0.40:
                 control = {'store_cache_value': ['stored', step]}
                 if rng.random() < 0.3:
+                    # every value the cache can hold may be supplied, also the falsy ones (None is a legal cached value of both cache types used here)
+                    control['store_cache_value'] = rng.choice([None, 0, False, [], {}, '', {'x': None}])
+                    res.count('falsy_store_values')
+                if rng.random() < 0.3:
                     control['force_cache'] = True
             n_before = len(execs)
             call_desc = {'class': 'KV' if use_v else 'K', 'method': m['name'], 'version': m['version'], 'args': args, 'kwargs': kwargs, **control}
@@ -226,6 +252,8 @@ def run_class(rng, res: CaseResult, cache_kind):
                 exp_val = model[mk] if present else None
                 if present and had_other_spelling:
                     res.count('respelled_hits')
+                    if any(has_multikey_dict(v) for v in binding.values()):
+                        res.count('respelled_hits_with_reordered_mappings')
                 if present:
                     fulls = seen_full.setdefault(mk, set()) if False else None
                 if not present and any(k[0] == m['name'] and k[1] == m['version'] for k in model):
